@@ -145,6 +145,10 @@ def build_field(f):
         kw["required"] = False
     if f.get("on_error"):
         kw["on_error"] = f["on_error"]
+    if f.get("deps"):
+        kw["dependencies"] = list(f["deps"])
+    if f.get("alias_from"):
+        kw["alias_from"] = list(f["alias_from"])
     kw.update(f.get("fcons") or {})       # constraints declared on the field: validators of the wrapping Rule
     return Field(**kw)
 
@@ -163,6 +167,9 @@ def make_options(o, mode, extra=None):
             kw[k] = o[k]
     if o.get("dfs") is not None:
         kw["data_first_search"] = bool(o["dfs"])
+    for k in ("max_params", "min_params"):
+        if o.get(k):
+            kw[k] = o[k]
     if extra:
         kw.update(extra)
     return Options(**kw)
@@ -248,6 +255,55 @@ def outcome(thunk):
     except Exception as e:  # not a ParseError: C04's business, but a verdict nevertheless
         return {"escape": type(e).__name__}
     return {"ok": canon_map([[k, enc(v)] for k, v in r.items() if not unprovided(v)])}
+
+
+KNOWN_KINDS = {"ParseError", "AbsenceError", "ExceedError", "TupleExceedError", "ConstraintError",
+               "OneOfViolatedError", "NegateViolatedError", "CollectedParseError"}
+
+
+def _kind(e):
+    """error class as the model names it: the classes the error sites create, `other` for what a converter raised"""
+    n = type(e).__name__
+    return n if n in KNOWN_KINDS else "other"
+
+
+def outcome_type(thunk):
+    """a bare type called on a value: the errors of that level, in order"""
+    from utype import exc
+    try:
+        r = thunk()
+    except exc.CollectedParseError as e:
+        return {"err": "collected", "errors": [[_kind(x), _item(x)] for x in e.errors]}
+    except exc.ParseError as e:
+        return {"err": "raw", "errors": [[_kind(e), _item(e)]]}
+    except Exception as e:
+        return {"escape": type(e).__name__}
+    return {"ok": enc(r)}
+
+
+def impl_type(case):
+    """kind=type: `type_transform(value, T, options)` in the five modes"""
+    from utype import type_transform
+    o = case["opts"]
+    try:
+        T = build_type(case["type"])
+    except Exception as e:
+        return {"config_error": f"{type(e).__name__}: {e}"[:200]}
+    v = dec(case["value"])
+    out = {"runs": [outcome_type(lambda m=m: type_transform(v, T, options=make_options(o, m))) for m in MODES]}
+    try:
+        cons_table: list = []
+        ty = resolve(T, cons_table)
+        opt_add = resolve(addition_type(o["addition"]), cons_table) if isinstance(o.get("addition"), dict) else None
+        cl = Closure(o, opt_add)
+        cl.need(ty, {vkey(case["value"]): case["value"]}, {(False, False)})
+        out["resolved_type"] = strip(ty)
+        out["ropts"] = {"addition": {"typed": strip(opt_add)} if opt_add is not None else
+                        (None if o.get("addition", "unset") == "unset" else o["addition"]), "addTy": None}
+        out["tables"] = {"conv": list(cl.conv.values()), "exact": list(cl.exact.values()), "constraints": cons_table}
+    except Unmodelled as e:
+        out["unmodelled"] = str(e)
+    return out
 
 
 def _item(e):
@@ -473,6 +529,8 @@ def impl(case):
     warnings.simplefilter("ignore")
     if case.get("kind") == "ctx":
         return impl_ctx(case)
+    if case.get("kind") == "type":
+        return impl_type(case)
     api, decl, o, data = case["api"], case["decl"], case["opts"], case["data"]
     args_j, var, kwty = case.get("args") or [], case.get("var"), case.get("kwty")
     optmode = case.get("optmode", "runtime")
@@ -489,6 +547,10 @@ def impl(case):
     posnames = [f["name"] for f in decl if f.get("pos")]
     given = posnames[:len(pargs)]
     alone = []
+    o_full, decl_full = o, decl
+    # "on its own" is the item-level notion: without the key-count limits and the dependencies of the whole mapping
+    o = {k: v for k, v in o.items() if k not in ("max_params", "min_params")}
+    decl = [{k: v for k, v in f.items() if k != "deps"} for f in decl]
     for j, v in enumerate(pargs):
         if j < len(posnames):
             # the parameter it is bound to, given alone (by keyword)
@@ -498,11 +560,16 @@ def impl(case):
         elif var is not None:
             r = run_decl(api, [], o, optmode, MODES[0], [], (v,), var, kwty)
             alone.append([f"*args:{j}", "ok" not in r])
-    for it in dict.fromkeys([f["name"] for f in decl if f["name"] not in given] + [k for k, _ in data]):
+    accepted = {f["name"]: {f["name"], *(f.get("alias_from") or [])} for f in decl}
+    owner = {k: n for n, ks in accepted.items() for k in ks}
+    for it in dict.fromkeys([f["name"] for f in decl if f["name"] not in given] + [owner.get(k, k) for k, _ in data]):
+        # a field's item covers every key it accepts (aliases: outside the model, oracle only)
         d1 = [dict(f, pos=False) for f in decl if f["name"] == it and it not in given]
-        r = run_decl(api, d1, o, optmode, MODES[0], [(k, v) for k, v in pdata if k == it], (), None, kwty)
+        keys = accepted.get(it, {it})
+        r = run_decl(api, d1, o, optmode, MODES[0], [(k, v) for k, v in pdata if k in keys], (), None, kwty)
         alone.append([it, "ok" not in r])
     out = {"runs": runs, "alone": alone}
+    o, decl = o_full, decl_full
     # the tree the model runs on + the conversions it may ask for
     try:
         st, v, _ = get_decl(api, decl, o, optmode, MODES[0], var, kwty)
@@ -529,13 +596,17 @@ def impl(case):
         for fname in order:
             f = byname[fname]
             pf = fields[f["name"]]
-            if pf.name != f["name"] or list(pf.all_aliases) != [f["name"]] or pf.dependencies or pf.discriminator_map:
-                raise Unmodelled("field aliases/dependencies")
+            if pf.name != f["name"] or list(pf.all_aliases) != [f["name"]] or pf.discriminator_map:
+                raise Unmodelled("field aliases")
+            deps = sorted(pf.dependencies or [])
+            if any(d not in byname for d in deps):
+                raise Unmodelled("dependency on something that is not a declared field")
             if getattr(pf, "positional_only", False):
                 raise Unmodelled("positional-only parameter")
             ty = resolve(pf.type, cons_table) if pf.type is not None else None
             rdecl.append({"name": f["name"], "ty": strip(ty), "required": bool(pf.is_required(make_options(o, MODES[0]))),
-                          **({"default": f["default"]} if "default" in f else {}), "on_error": f.get("on_error")})
+                          **({"default": f["default"]} if "default" in f else {}), "on_error": f.get("on_error"),
+                          "deps": deps})
             if ty is not None:
                 S = {vkey(v): v for k, v in data if k == f["name"]}
                 if f["name"] in given:
@@ -811,6 +882,20 @@ def gen_case(rng, api=None):
     for k in ("invalid_items", "invalid_keys", "invalid_values"):
         if rng.random() < 0.15:
             o[k] = rng.choice(POLICIES)
+    if rng.random() < 0.1:
+        o["max_params"] = rng.choice([1, 2, 3])
+    if rng.random() < 0.08:
+        o["min_params"] = rng.choice([1, 2, 3, 4])
+    if nf >= 2 and rng.random() < 0.16:
+        # dependencies between the declared fields
+        for f in rng.sample(decl, k=rng.choice([1, 1, 2])):
+            others = [g["name"] for g in decl if g["name"] != f["name"]]
+            f["deps"] = rng.sample(others, k=min(len(others), rng.choice([1, 1, 2])))
+    alias_of = {}
+    if rng.random() < 0.05:
+        f = rng.choice(decl)          # aliases are outside the model: these cases feed the oracle only
+        f["alias_from"] = [f["name"] + "1"]
+        alias_of[f["name"]] = f["name"] + "1"
     data = []
     nbad = rng.choice([0, 0, 1, 1, 2, 2, 3, 4])
     bad = set(rng.sample(range(nf), k=min(nf, nbad)))
@@ -828,6 +913,15 @@ def gen_case(rng, api=None):
     for k in rng.sample(EXTRA, k=nextra):
         v = enc(rng.choice(INTS + STRS)) if addty is None else gen_val(rng, addty, good=rng.random() < 0.5)
         data.insert(rng.randrange(len(data) + 1), [k, v])
+    for name, al in alias_of.items():
+        r = rng.random()
+        for i, (k, v) in enumerate(list(data)):
+            if k == name:
+                if r < 0.6:
+                    data[i] = [al, v]
+                elif r < 0.8:
+                    data.insert(i + 1, [al, v if rng.random() < 0.5 else enc(rng.choice(INTS + STRS))])
+                break
     case = {"kind": "parse", "api": api, "optmode": rng.choice(["runtime", "class"]), "decl": decl, "opts": o, "data": data}
     if kwty is not None:
         case["kwty"] = kwty
@@ -870,6 +964,9 @@ def make_positional(rng, case):
         else:
             break
     args = [data.pop(f["name"]) for f in decl[:given]]
+    for f in decl[:given]:
+        for al in f.get("alias_from") or []:
+            data.pop(al, None)        # a parameter is not given both by position and by (alias) keyword
     if rng.random() < 0.45:
         case["var"] = {"ty": rng.choice([None, {"t": "int"}, {"rule": "int", "cons": {"ge": 0}},
                                          {"rule": "str", "cons": {"max_length": 2}}])}
@@ -880,6 +977,20 @@ def make_positional(rng, case):
         args.append(enc(7))           # an excess positional argument (ignored by parse_params)
     case["args"] = args
     case["data"] = [[k, v] for k, v in case["data"] if k in data]
+
+
+def gen_type_case(rng):
+    """a bare type on one value: makes the error list of every nested level visible at the top"""
+    ty = gen_ty(rng, rng.choice([1, 2, 2, 3]))
+    while "schema" in json.dumps(ty):
+        ty = gen_ty(rng, rng.choice([1, 2, 2, 3]))
+    o = {"addition": rng.choice(["unset", "unset", False, True])}
+    if rng.random() < 0.12:
+        o["addition"] = gen_addty(rng)
+    for k in ("invalid_items", "invalid_keys", "invalid_values"):
+        if rng.random() < 0.2:
+            o[k] = rng.choice(POLICIES)
+    return {"kind": "type", "type": ty, "opts": o, "value": gen_val(rng, ty, good=rng.random() < 0.35)}
 
 
 def gen_ctx_case(rng):
@@ -940,7 +1051,35 @@ def norm_opts(o, ropts):
     """the model's options: the case's, with the effective `addition` / declared addition type measured by the adapter"""
     return {"ndl": False, "nec": False, "addition": ropts["addition"], "addTy": ropts["addTy"],
             "invalid_items": o.get("invalid_items"), "invalid_keys": o.get("invalid_keys"),
-            "invalid_values": o.get("invalid_values"), "dfs": bool(o.get("dfs"))}
+            "invalid_values": o.get("invalid_values"), "dfs": bool(o.get("dfs")),
+            "max_params": o.get("max_params") or None, "min_params": o.get("min_params") or None}
+
+
+GLOBAL_KINDS = {"ParamsExceedError", "ParamsLackError", "DependenciesAbsenceError"}
+
+
+def global_truth(case, io):
+    """what the mapping as a whole must / may report, from the case alone: the key count is exact; a dependency
+    can only be lacking when a given field demands a field that is not given or fails"""
+    o, decl = case["opts"], case["decl"]
+    n = len(case["data"])
+    posnames = [f["name"] for f in decl if f.get("pos")]
+    owner = {k: f["name"] for f in decl for k in [f["name"], *(f.get("alias_from") or [])]}
+    bykw = {owner.get(k, k) for k, _ in case["data"]}
+    given = set(posnames[:len(case.get("args") or [])]) | bykw
+    failing = set(failing_items(io))
+    exceed = bool(o.get("max_params")) and n > o["max_params"]
+    lack = bool(o.get("min_params")) and n < o["min_params"]
+    excl = o.get("invalid_values") == "exclude"
+    # only a field parsed by parse_data (given by keyword) demands its dependencies; a positional one satisfies others'
+    byname = {f["name"]: f for f in decl}
+    # a dependency given but dropped by the `exclude` policy counts as not given (ParserField.EXCLUDED)
+    deps_possible = any(f["name"] in bykw and any(d not in given or d in failing or excl or
+                                                  byname.get(d, {}).get("on_error") == "exclude" for d in f["deps"])
+                        for f in decl if f.get("deps"))
+    deps_certain = any(f["name"] in bykw and f["name"] not in failing and not excl and f.get("on_error") != "exclude"
+                       and any(d not in given for d in f["deps"]) for f in decl if f.get("deps"))
+    return exceed, lack, deps_possible, deps_certain
 
 
 def failing_items(io):
@@ -965,6 +1104,7 @@ class C10(Check):
                    "fragment: no aliases/dependencies/no_input/discriminator/max_params/positional-only or excluded (_x) "
                    "parameters; no parameter given both by position and by keyword; constraints gt/ge/lt/le on int "
                    "and length constraints (the validators are abstract in the theorems)"]
+    case_timeout = 90.0      # the cases are cheap; on a loaded box a 10 s per-case kill produced spurious `hang`s
     budget = {"quick": 1800, "thorough": 30000}
     search_budget = {"quick": 2500, "thorough": 25000}
 
@@ -973,8 +1113,10 @@ class C10(Check):
         if tier == "thorough":
             out += exhaustive_cases()
         nctx = max(50, n // 12)
+        ntype = n // 6
         out += [gen_ctx_case(rng) for _ in range(nctx)]
-        out += [gen_case(rng) for _ in range(n - nctx)]
+        out += [gen_type_case(rng) for _ in range(ntype)]
+        out += [gen_case(rng) for _ in range(n - nctx - ntype)]
         return out
 
     # the model line needs the tables measured by the adapter: run the implementation first
@@ -1013,6 +1155,12 @@ class C10(Check):
     def model_line2(self, case, io):
         if case.get("kind") == "ctx":
             return {"ctx": case["ctx"], "mode": case["mode"]}
+        if case.get("kind") == "type":
+            if not isinstance(io, dict) or "resolved_type" not in io:
+                return None
+            t = io["tables"]
+            return {"type": io["resolved_type"], "opts": norm_opts(case["opts"], io["ropts"]), "value": case["value"],
+                    "modes": MODES, "conv": t["conv"], "exact": t["exact"], "constraints": t["constraints"]}
         if not isinstance(io, dict) or "resolved" not in io:
             return None
         t = io["tables"]
@@ -1040,6 +1188,22 @@ class C10(Check):
         if mo.get("miss"):
             return "model asked for a conversion the implementation never needs (prim-miss)"
         m = mo["model"]
+        if case.get("kind") == "type":
+            for mode, a, b in zip(MODES, io["runs"], m["runs"]):
+                if "escape" in a:
+                    if "ok" in b:
+                        return f"mode {mode}: impl escapes {a['escape']} but model accepts"
+                    continue
+                if "ok" in a or "ok" in b:
+                    if a != b:
+                        return f"mode {mode}: impl={a} model={b}"
+                    continue
+                # the error list of this level: classes in order; items where the model names one
+                ea, eb = a["errors"], b["errors"]
+                if a["err"] != b["err"] or len(ea) != len(eb) or any(
+                        x[0] != y[0] or (y[1] is not None and x[1] != y[1]) for x, y in zip(ea, eb)):
+                    return f"mode {mode}: error list of the type differs: impl={a} model={b}"
+            return None
         for mode, a, b in zip(MODES, io["runs"], m["runs"]):
             if "escape" in a:
                 if "ok" in b:
@@ -1071,10 +1235,20 @@ class C10(Check):
         """the property, evaluated on what the implementation returned"""
         if case.get("kind") == "ctx" or "config_error" in io:
             return None
+        if case.get("kind") == "type":
+            ff = io["runs"][0]
+            for mode, r in zip(MODES[1:], io["runs"][1:]):
+                if ("ok" in ff) != ("ok" in r):
+                    return (f"type verdict differs: fail-fast {'accepts' if 'ok' in ff else 'rejects'} but "
+                            f"collect_errors=True,max_errors={mode[1]} {'accepts' if 'ok' in r else 'rejects'}")
+                if "ok" in ff and ff["ok"] != r["ok"]:
+                    return f"type value differs: fail-fast {ff['ok']} vs collect_errors=True,max_errors={mode[1]} {r['ok']}"
+            return None
         if "runs" not in io:
             return f"adapter returned no runs: {io}"
         ff = io["runs"][0]
         failing = failing_items(io)
+        exceed, too_few, deps_possible, deps_certain = global_truth(case, io)
         for mode, r in zip(MODES[1:], io["runs"][1:]):
             tag = f"collect_errors=True,max_errors={mode[1]}"
             if ("ok" in ff) != ("ok" in r):
@@ -1088,9 +1262,18 @@ class C10(Check):
                 continue      # not a ParseError at all: C04's subject; the verdict (rejected) agrees
             if r.get("err") != "collected":
                 return f"{tag}: rejection is not one CollectedParseError but {r}"
-            named = [it for _, it in r["errors"]]
-            if any(it is None for it in named):
+            # errors of the whole mapping name no item; every other error must name one
+            glob = [k for k, it in r["errors"] if it is None]
+            bad = [k for k in glob if k not in GLOBAL_KINDS]
+            if bad:
                 return f"{tag}: a collected error names no item: {r['errors']}"
+            if ("ParamsExceedError" in glob and not exceed) or ("ParamsLackError" in glob and not too_few) or \
+                    ("DependenciesAbsenceError" in glob and not deps_possible) or len(glob) != len(set(glob)):
+                return f"{tag}: reports {glob} for the mapping as a whole, which the input does not warrant"
+            if mode[1] is None and ((exceed and "ParamsExceedError" not in glob) or (too_few and "ParamsLackError" not in glob)
+                                    or (deps_certain and "DependenciesAbsenceError" not in glob)):
+                return f"{tag}: the mapping as a whole fails (exceed={exceed}, lack={too_few}, dependency={deps_certain}) but reports only {glob}"
+            named = [it for _, it in r["errors"] if it is not None]
             extra = sorted(set(named) - set(failing))
             if extra:
                 return f"{tag}: reports item(s) {extra} that do not fail on their own (failing: {failing})"
@@ -1102,8 +1285,10 @@ class C10(Check):
                 return f"{tag}: {len(r['errors'])} errors reported, more than max_errors"
         if "ok" in ff and failing:
             return f"accepted although item(s) {failing} fail on their own"
-        if "ok" not in ff and not failing:
-            return "rejected although no top-level item fails on its own"
+        if "ok" in ff and (exceed or too_few or deps_certain):
+            return f"accepted although the mapping as a whole fails (exceed={exceed}, lack={too_few}, dependency={deps_certain})"
+        if "ok" not in ff and not failing and not (exceed or too_few or deps_possible):
+            return "rejected although no top-level item fails on its own and the mapping as a whole has nothing to report"
         return None
 
     def classify(self, case, io, why):
@@ -1114,6 +1299,9 @@ class C10(Check):
             return None
         if not isinstance(io, dict) or "runs" not in io:
             return None
+        if case.get("kind") == "type":
+            # non-trivial: the value is rejected (an error list is compared)
+            return json.dumps(["type", case["type"], case["opts"], case["value"]], sort_keys=True) if "ok" not in io["runs"][0] else None
         if failing_items(io) or any(f.get("on_error") for f in case["decl"]):
             return json.dumps([case["api"], case["decl"], case["opts"], case["data"]], sort_keys=True)
         return None
@@ -1127,6 +1315,9 @@ class C10(Check):
             return "config-error"
         if "runs" not in io:
             return "adapter-failure"
+        if case.get("kind") == "type":
+            r = io["runs"][1]
+            return ("unmodelled/" if "unmodelled" in io else "") + "type/" + ("ok" if "ok" in r else "escape" if "escape" in r else f"errors={min(len(r['errors']), 3)}")
         nfail = len(failing_items(io))
         s = json.dumps(case["decl"])
         combs = "".join(op for op in "&|^~" if f'"comb": "{op}"' in s)
